@@ -193,6 +193,8 @@ def gen_extract(r, prop, client, risky_rate=0.04, force_small=False,
             op['out_file'] = r.pick(['out.txt', 'rex.txt'])
             if r.chance(0.25):
                 op['io_fault'] = True
+            elif r.chance(0.25):
+                op['default_encoding'] = r.pick(['ascii', 'latin-1'])
         if not op['examples']:
             op['form'] = 'list'
             op['examples'] = examples
@@ -321,7 +323,7 @@ def gen_plan(prop, r, tier, run):
                     op.pop('split', None)
                 if op['form'] == 'streams':
                     op['form'] = 'list'
-                    for k in ('out_file', 'io_fault'):
+                    for k in ('out_file', 'io_fault', 'default_encoding'):
                         op.pop(k, None)
             ops.append(op)
     for i, op in enumerate(ops):
@@ -337,7 +339,8 @@ def gen_c14(r, clients):
         tgt.pop('split', None)
     if tgt['form'] == 'streams':
         tgt['form'] = 'list'
-    for k in ('skip_header', 'header', 'out_file', 'io_fault'):
+    for k in ('skip_header', 'header', 'out_file', 'io_fault',
+              'default_encoding'):
         tgt.pop(k, None)
     if tgt['form'] == 'dict':
         # canonical target is a list; dict is one of the variants
@@ -817,11 +820,23 @@ def call_extract(ctx, op, tag=None, as_object=False):
                         for x in seam.fired:
                             ctx.stats['faults']['io_' + x[0]] += 1
                         seam.begin_op(None, None)
+            elif op.get('default_encoding'):
+                # a process whose preferred text encoding is ASCII / latin-1:
+                # either the results are written and say what they should,
+                # or the caller is told they could not be
+                from sim.defaultenc import DefaultEncoding
+                with DefaultEncoding(op['default_encoding'],
+                                     ctx.stats['faults']):
+                    rexpy.rexpy_streams(
+                        ex, outp, skip_header=bool(op.get('skip_header')),
+                        size=size, seed=op.get('seed'), **opts)
             else:
                 rexpy.rexpy_streams(ex, outp,
                                     skip_header=bool(op.get('skip_header')),
                                     size=size, seed=op.get('seed'), **opts)
-            with io.open(outp, encoding='utf-8', newline='\n') as f:
+            with io.open(outp, encoding=op.get('default_encoding')
+                         if not op.get('io_fault') else 'utf-8',
+                         newline='\n') as f:
                 t = f.read()
             val = t.split('\n')[:-1] if t.endswith('\n') else t.split('\n')
             if t == '':
@@ -991,7 +1006,7 @@ def run_plain(ctx, op, kept):
 
 def reported_io_fault(e):
     from sim import fsaudit
-    return isinstance(e, fsaudit.FsFaultInjected)
+    return isinstance(e, (fsaudit.FsFaultInjected, UnicodeEncodeError))
 
 
 def check_c03(ctx, op, kept, outcome, val, rex, reg):
